@@ -18,6 +18,10 @@ def observer_cases(props, tier):
             for turn in range(1, 5):
                 cs.append((play.case_observer, f'observer product step: {mode}, {t} cards on the table, seat {turn} on turn',
                            dict(props=props, t=t, mode=mode, turn=turn)))
+    # after the 52nd card (every hand empty): whoever is asked to play, both games refuse and nothing changes
+    for mode in ('known', 'is_dummy'):
+        cs.append((play.case_observer, f'observer product step: {mode}, play is over (all 52 cards played)',
+                   dict(props=props, t=0, mode=mode, turn=None, over=True)))
     return cs
 
 
